@@ -1863,6 +1863,18 @@ func (vc *VC) panicConds() []Term {
 	return out
 }
 
+func successLike(x *ssa.Return) bool {
+	if len(x.Results) == 0 {
+		return true
+	}
+	last := x.Results[len(x.Results)-1]
+	if types.Identical(last.Type(), types.Universe.Lookup("error").Type()) {
+		c, isConst := last.(*ssa.Const)
+		return isConst && c.IsNil()
+	}
+	return true
+}
+
 // exemptReturn: the contract declares this return unreachable under its precondition: `unreachable "text"`
 // names it by a piece of the return statement's own source line (robust against line shifts).
 func (vc *VC) exemptReturn(pos token.Pos) bool {
@@ -1979,7 +1991,10 @@ func (vc *VC) ret(x *ssa.Return) {
 	vc.retReach = append(vc.retReach, vc.curReach)
 	// vacuity: every return must be reachable under the precondition and everything assumed on the way (an
 	// unreachable return makes its postconditions hold vacuously); `unreachable "ret k"` in a contract exempts one
-	if !vc.exemptReturn(x.Pos()) {
+	// Error returns (a non-constant last result of type error) are left out: with exact external contracts many
+	// defensive error paths (an I/O error of a strings.Reader) are unreachable, which is harmless. A return
+	// that reports success, or a return of a function without an error result, must be reachable.
+	if !vc.exemptReturn(x.Pos()) && successLike(x) {
 		vc.oblige("cover", fmt.Sprintf("return-%d-reachable", k), "false", x.Pos()).Expect = "fail"
 	}
 	for i, c := range vc.decl.Clauses {
